@@ -11,7 +11,9 @@ import (
 	"io"
 	"math/rand"
 	"net/http"
+	"os"
 	"runtime"
+	"strconv"
 	"strings"
 	"sync/atomic"
 	"time"
@@ -231,6 +233,17 @@ type c12RespBody struct {
 func (b *c12RespBody) Read(p []byte) (int, error) { return b.r.Read(p) }
 func (b *c12RespBody) Close() error               { atomic.AddInt32(&b.closes, 1); return nil }
 
+// c12Settle is how long the runtime is given to let the goroutine exit and the files be closed: 2 s unless
+// VERIF_C12_SETTLE_MS says otherwise (used by the mutation self-test to keep leaking mutants quick).
+func c12Settle() time.Duration {
+	if v := os.Getenv("VERIF_C12_SETTLE_MS"); v != "" {
+		if n, err := strconv.Atoi(v); err == nil && n > 0 {
+			return time.Duration(n) * time.Millisecond
+		}
+	}
+	return 2 * time.Second
+}
+
 func c12Goroutines() int {
 	buf := make([]byte, 1<<20)
 	n := runtime.Stack(buf, true)
@@ -386,7 +399,7 @@ func c12RunCall(in c12In) c12Obs {
 		obs.InTime = false
 	}
 	// let the runtime settle: poll up to 2 s for the goroutine to be gone and every source to be closed
-	deadline := time.Now().Add(2 * time.Second)
+	deadline := time.Now().Add(c12Settle())
 	for {
 		gone := c12Goroutines() <= baseline
 		closed := true
